@@ -55,22 +55,44 @@ func (o rowOut) class() string {
 type reapOut struct {
 	CacheAfter string `json:"cache_after"` // "none" | "kept"
 	CloseArg   bool   `json:"close_arg"`
-	CloseEntry bool   `json:"close_entry"`
+	CloseEntry bool   `json:"close_entry"` // closed the (different) entry present under the lock
+	ClosePre   bool   `json:"close_pre"`   // closed the (different) entry present before the lock
+}
+
+// reapKinds: "<pre>><lock>": the cache entry when reapPeer is called (before it has the
+// lock) and when it gets the lock: N none, S the connection being reaped, X a different
+// connection, Y (lock only, pre=X) yet another connection. Code that looks at the cache
+// before taking the lock shows up as rows that depend on <pre>.
+var reapKinds = []string{"N>N", "N>S", "N>X", "S>N", "S>S", "S>X", "X>N", "X>S", "X>X", "X>Y"}
+
+// reapPreMatters: does any reapPeer row depend on the cache as it was before the lock?
+func (tb *tables) reapPreMatters() bool {
+	for _, k := range reapKinds {
+		lock := k[2:]
+		if lock == "Y" {
+			lock = "X"
+		}
+		if tb.Reap[k] != tb.Reap[lock+">"+lock] {
+			return true
+		}
+	}
+	return false
 }
 
 type tables struct {
 	Decide map[rowKey]rowOut
 	Sent   map[string]string  // Dir+Snap -> message sent
-	Reap   map[string]reapOut // "N" no entry | "S" entry is the reaped connection | "X" a different entry
+	Reap   map[string]reapOut // see reapKinds
 	Rows   int
 }
 
 // tablePair: the tables of a transport whose address is lower ([0]) / higher ([1]) than its
 // peer's. On a tree without an identity tie-break both are identical.
 type tablePair struct {
-	T    [2]*tables
-	Same bool
-	Rows int
+	T       [2]*tables
+	Same    bool
+	Rows    int
+	ReapPre bool // some reapPeer row depends on the cache as read before the lock
 }
 
 // of returns the tables peer s decides by under the given address order.
@@ -117,6 +139,7 @@ func extractTablePair(ctx context.Context) (*tablePair, error) {
 		tp.Rows += tb.Rows
 	}
 	tp.Same = tp.T[0].equal(tp.T[1])
+	tp.ReapPre = tp.T[0].reapPreMatters() || tp.T[1].reapPreMatters()
 	return tp, nil
 }
 
@@ -426,27 +449,48 @@ func (x *extractor) reapRow(kind string) (reapOut, error) {
 	if err != nil {
 		return out, err
 	}
-	var entry *quic.Conn
-	switch kind {
-	case "S":
-		entry = q
-	case "X":
-		if entry, _, err = x.conn(false); err != nil {
-			return out, err
+	pick := func(k byte, other *quic.Conn) (*quic.Conn, error) {
+		switch k {
+		case 'S':
+			return q, nil
+		case 'X':
+			if other != nil {
+				return other, nil
+			}
+			c, _, err := x.conn(false)
+			return c, err
+		case 'Y':
+			c, _, err := x.conn(false)
+			return c, err
 		}
+		return nil, nil
 	}
-	x.setCache(entry, "O")
+	pre, err := pick(kind[0], nil)
+	if err != nil {
+		return out, err
+	}
+	var preOther *quic.Conn
+	if kind[0] == 'X' {
+		preOther = pre
+	}
+	lock, err := pick(kind[2], preOther)
+	if err != nil {
+		return out, err
+	}
+	x.setCache(pre, "O")
 	defer x.setCache(nil, "")
 	done := make(chan struct{})
 	go func() {
 		x.T.t.VerifReapPeer(q, x.peer)
 		close(done)
 	}()
+	// the function is parked where it asks for the lock: whatever it read before is stale now
 	ev, err := x.expect("reap", "W", "arrive")
 	if err != nil {
 		x.ctl.Drain()
 		return out, err
 	}
+	x.setCache(lock, "O")
 	ev.Release()
 	if _, err = x.expect("reap", "W", "done"); err != nil {
 		x.ctl.Drain()
@@ -455,13 +499,17 @@ func (x *extractor) reapRow(kind string) (reapOut, error) {
 	if _, err = waitCh(done, "reapPeer return"); err != nil {
 		return out, err
 	}
-	_, _, ok := x.T.t.VerifCacheGet(x.key)
+	got, _, ok := x.T.t.VerifCacheGet(x.key)
 	out.CacheAfter = "none"
 	if ok {
+		if got != lock {
+			return out, fmt.Errorf("reap row %s: cache holds an unexpected connection", kind)
+		}
 		out.CacheAfter = "kept"
 	}
 	out.CloseArg = isClosed(q)
-	out.CloseEntry = entry != nil && entry != q && isClosed(entry)
+	out.CloseEntry = lock != nil && lock != q && isClosed(lock)
+	out.ClosePre = pre != nil && pre != q && pre != lock && isClosed(pre)
 	return out, nil
 }
 
@@ -494,7 +542,7 @@ func extractTables(ctx context.Context, tLower bool) (*tables, error) {
 			}
 		}
 	}
-	for _, kind := range []string{"N", "S", "X"} {
+	for _, kind := range reapKinds {
 		o, err := x.reapRow(kind)
 		if err != nil {
 			return nil, err
